@@ -148,6 +148,14 @@ func body(sp spec) {
 				}
 				vs.Observe("close-returned")
 				closeReturned = true // same transition as the observation
+				// whichever Close call it is (the first, or one overlapping it): once it has returned, the output
+				// channels that existed when it was called are closed
+				if !vs.PeekClosed(ch1) {
+					vs.Fail("channels-closed", "a Close call returned while the output channel of subscription 1 was still open")
+				}
+				if withSub2 && !vs.PeekClosed(ch2) {
+					vs.Fail("channels-closed", "a Close call returned while the output channel of subscription 2 was still open")
+				}
 			})
 		case "cancel":
 			run(func() { cancel1() })
@@ -282,6 +290,12 @@ func init() {
 					tier = reg.Thorough
 				}
 				add(tier, 1, spec{Cfg: cfg, Deco: deco, Consumer: "ack", Actors: a.actors, C: a.cq}, a.ct)
+			}
+			// two overlapping Close calls while a message sits undelivered / unsettled (the first one has to wait)
+			if deco < 2 && cfg.Buf == 0 {
+				for _, cons := range []string{"hold", "noread"} {
+					add(reg.Quick, 1, spec{Cfg: cfg, Deco: deco, Consumer: cons, Actors: "pub+close+close", C: 1}, 2)
+				}
 			}
 		}
 	}
